@@ -262,38 +262,61 @@ def _uniq(model: Model, U: RuleResult):
             U.ok(f.fq, "%s re-expands the unique list with self._uniq.map_unique_objs before installing" % q.split(".")[-1])
         else:
             U.bad(f, f.node, "%s must re-expand with the same Uniquifier (map_unique_objs)" % q)
+    # MultiSibling: abstract round trip of the getter / setter pair over three collaborating functions holding 2, 0 and 3 parameters
+    from ..domains.kinds import AObj, KindInterp
+    from ..domains.dictsem import Unsupported, Raised, _Return, Tok
     ms = model.func(PF, "MultiSiblingPureFunction._get_all_obj_params_init")
-    loops = [n for n in own_nodes(ms.node) if isinstance(n, ast.For)]
-    ok = False
-    why = ""
-    if loops:
-        lp = loops[0]
-        per = None
-        for s in lp.body:
-            if isinstance(s, ast.Assign) and isinstance(s.targets[0], ast.Name) and isinstance(s.value, ast.Call) \
-                    and ast.unparse(s.value.func).endswith("._get_all_obj_params_init"):
-                per = s.targets[0].id
-        for s in lp.body:
-            if isinstance(s, ast.Assign) and isinstance(s.targets[0], ast.Subscript) and "cumsum_idx" in ast.unparse(s.targets[0].value):
-                tgt_i = ast.unparse(s.targets[0].slice).replace(" ", "")
-                v = s.value
-                if isinstance(v, ast.BinOp) and isinstance(v.op, ast.Add):
-                    parts = [ast.unparse(v.left).replace(" ", ""), ast.unparse(v.right).replace(" ", "")]
-                    ivar = lp.target.elts[0].id if isinstance(lp.target, ast.Tuple) else None
-                    want = {"self.cumsum_idx[%s]" % ivar, "len(%s)" % per}
-                    ok = tgt_i == "%s+1" % ivar and set(parts) == want
-                    why = "%s = %s" % (ast.unparse(s.targets[0]), ast.unparse(v))
-    if ok:
-        U.ok(ms.fq, "offsets accumulate the per-function lengths: %s" % why)
-    else:
-        U.bad(ms, ms.node, "cumsum_idx[i + 1] must be cumsum_idx[i] + len(<object parameters of the i-th function>) (got `%s`)" % why)
     st = model.func(PF, "MultiSiblingPureFunction._set_all_obj_params")
-    src = ast.unparse(st.node).replace(" ", "")
-    arg = st.params()[1]
-    if "%s[self.cumsum_idx[i]:self.cumsum_idx[i+1]]" % arg in src and "enumerate(self.pfuncs)" in src:
-        U.ok(st.fq, "each sibling receives its own slice [cumsum_idx[i]:cumsum_idx[i+1]]")
-    else:
-        U.bad(st, st.node, "MultiSibling must hand each function the slice delimited by consecutive offsets")
+    init_ms = model.func(PF, "MultiSiblingPureFunction.__init__")
+    me = ms.params()[0]
+    held = [[Tok("p0a"), Tok("p0b")], [], [Tok("p2a"), Tok("p2b"), Tok("p2c")]]
+    received: Dict[int, list] = {}
+    pfs = []
+    for k, hs in enumerate(held):
+        o = AObj("sibling %d" % k, ("PureFunction",))
+        o.methods["_get_all_obj_params_init"] = (lambda hs=hs: list(hs))
+        o.methods["_set_all_obj_params"] = (lambda lst, k=k: received.__setitem__(k, list(lst)))
+        pfs.append(o)
+    # the attributes __init__ derives from its list of functions (get_pure_function returns a PureFunction unchanged: C09-D)
+    boot = KindInterp({init_ms.params()[1]: list(pfs), "get_pure_function": (lambda x: x)})
+    try:
+        boot.run([s_ for s_ in init_ms.node.body if isinstance(s_, (ast.Assign, ast.AnnAssign))])
+    except (Unsupported, Raised) as e:
+        U.undecided(init_ms, init_ms.node, "cannot interpret MultiSiblingPureFunction.__init__: %s" % e)
+        return
+    pre = "%s." % init_ms.params()[0]
+    env = {"%s.%s" % (me, k[len(pre):]): v for k, v in boot.env.items() if k.startswith(pre)}
+    it = KindInterp(env)
+    try:
+        try:
+            it.run(ms.node.body)
+            allp = None
+        except _Return as r:
+            allp = r.v
+        flat = [t for hs in held for t in hs]
+        if not (isinstance(allp, list) and len(allp) == len(flat) and all(x is y for x, y in zip(allp, flat))):
+            U.bad(ms, ms.node, "MultiSibling._get_all_obj_params_init must return the concatenation of the siblings' parameter lists in sibling order "
+                  "(siblings holding 2, 0, 3 parameters gave %r)" % (allp,))
+        else:
+            U.ok(ms.fq, "the getter concatenates the siblings' lists in order (2 + 0 + 3 parameters)")
+        new = [Tok("n%d" % i) for i in range(len(flat))]
+        it2 = KindInterp(dict(it.env, **{st.params()[0]: it.env.get(me), st.params()[1]: list(new)}))
+        it2.env.pop(st.params()[0], None)
+        try:
+            it2.run(st.node.body)
+        except _Return:
+            pass
+        want = {0: new[0:2], 1: [], 2: new[2:5]}
+        okr = all(k in received and len(received[k]) == len(want[k]) and all(x is y for x, y in zip(received[k], want[k])) for k in want)
+        if okr:
+            U.ok(st.fq, "each sibling receives exactly its own slice of the new list (offsets accumulate the per-function lengths)")
+        else:
+            U.bad(st, st.node, "MultiSibling must hand each function the slice delimited by consecutive offsets cumsum_idx[i + 1] = cumsum_idx[i] + len(<object parameters of the "
+                  "i-th function>): siblings holding 2, 0, 3 parameters received %s of the new list n0..n4" % {k: received.get(k) for k in want})
+    except Unsupported as e:
+        U.undecided(ms, ms.node, "cannot interpret the MultiSibling getter / setter pair: %s" % e)
+    except Raised as e:
+        U.bad(st, st.node, "the MultiSibling getter / setter pair raises for siblings holding 2, 0, 3 parameters: %s" % e)
 
 
 def _delegation(model: Model, G: RuleResult):
